@@ -569,9 +569,9 @@ class Check:
         # real allocator on the profiles the model covers completely
         drv = B + '/ocaml/drv_vamh'
         if os.path.exists(drv):
-            cn, co = (400, 70) if self.quick else (8000, 120)
+            cn, co = (500, 70) if self.quick else (10000, 120)
             cd = self.rundir + '/vamh-core'
-            sh([B + '/vamh', 'gen', '-seed', str((self.seed + 11) % (1 << 62)), '-n', str(cn), '-ops', str(co), '-profile', 'core,core2,core3,core4',
+            sh([B + '/vamh', 'gen', '-seed', str((self.seed + 11) % (1 << 62)), '-n', str(cn), '-ops', str(co), '-profile', 'core,core2,core3,core4,core5',
                 '-out', cd, '-shrink=false', '-summary', cd + '.json'], timeout=3300)
             try:
                 self.vamh_failures(json.load(open(cd + '.json')).get('oracle_failures'), 'vamh gen core profiles seed=%d' % (self.seed + 11), tracedir=cd)
